@@ -1247,7 +1247,7 @@ def check_transform_case(case):
             return "exception: %s: %s" % (type(ex).__name__, str(ex)[:150])
         diff = oracle_transform(obs2, obs1, (np.eye(3), np.zeros(3), 1.0, 1.0, np.eye(3)))
         if diff:
-            return "list-differs: transform([...]) is not the sequence of method calls: %s%s" % (
+            return "list-differs: transform([...]) is not the sequence of method calls (what follows compares the result of the list with the result of the method calls, which stands for the `original`, under the identity map): %s%s" % (
                 diff, " [against the affine image of the original: %s]" % why if why else "")
     return why
 
